@@ -151,6 +151,23 @@ def make_ignore_merge(ep, maxslots=3, props=("C19",), known=()):
             files.setdefault(d, {}).setdefault(s, {}).setdefault("Ignore", {})
             E.goal("empty-ignore-mapping-next-to-configured-paths",
                    files[d][s]["Ignore"] == {} and len(chosen) >= 1)
+        # process history: an earlier build_config of this process saw OTHER
+        # configuration files (another working directory) that set Ignore
+        # paths in every section of this entry point; nothing of that may
+        # survive into the call under test
+        if E.choice("earlier-build-with-other-files", 2):
+            other = {}
+            for d, sct in slots:
+                other.setdefault(d, {}).setdefault(sct, {}).setdefault("Ignore", {})["/earlier"] = 99
+            sv = install(other)
+            try:
+                nc.build_config(ep)
+            except Exception as ex:  # noqa
+                E.fail("build_config-raised", "earlier call: %s: %s" % (type(ex).__name__, str(ex)[:200]))
+                return
+            finally:
+                uninstall(sv)
+            E.goal("second-build_config-of-the-process")
         saved = install(files)
         try:
             got = nc.build_config(ep)
